@@ -453,6 +453,47 @@ def r_load(ctx: Ctx, model):
                 okz = isinstance(tab, Term) and tab.op == "pandas.concat"
                 ctx.ob(okz, Finding("C18.K-range", fi.where, "table", f"interpolated table is {tab!r}"), nontrivial_key=("tab",))
     ctx.floor("interpolators built by _load_kernel", n, NW)
+    r_load_failure(ctx, model)
+
+
+def r_load_failure(ctx: Ctx, model, prop="C18", rule="K-range"):
+    """loaded kernels are invisible: a load that fails part-way (a malformed column) leaves nothing behind - the next load of the same
+    path builds the complete kernel again (interpreted with the second interpolator construction raising)"""
+    from ..absint import Raised
+    ctx.rule(f"{rule} (failed load): after _load_kernel(path) failed while building its second interpolator, a repeated load returns a "
+             "complete kernel (no partial entry is served from the cache)")
+    I = mk_nd(model)
+    fi = model.func(f"{PK}._load_kernel")
+    state = {"fail": False, "n": 0}
+    inner = I.ext_fallback
+
+    def fallback(I, dotted, args, kwargs, node):
+        if dotted in RAISING and state["fail"]:
+            state["n"] += 1
+            if state["n"] == 2:
+                raise I.fault("ValueError", node, "could not convert string to float")
+        return inner(I, dotted, args, kwargs, node)
+    I.ext_fallback = fallback
+
+    def thunk(I):
+        state["fail"], state["n"] = False, 0
+        full = I.call_func(fi, ["KPATH_REF"], {}, None)
+        state["fail"], state["n"] = True, 0
+        failed = False
+        try:
+            I.call_func(fi, ["KPATH_BAD"], {}, None)
+        except Raised:
+            failed = True
+        state["fail"] = False
+        again = I.call_func(fi, ["KPATH_BAD"], {}, None)
+        return failed, len(full) if isinstance(full, dict) else None, len(again) if isinstance(again, dict) else None
+    for oc in I.explore(thunk):
+        ok = oc.kind == "ok" and oc.value[0] and oc.value[1] is not None and oc.value[1] == oc.value[2]
+        ctx.ob(ok, Finding(f"{prop}.{rule}", fi.where, "failed-load-leaves-partial-kernel",
+                           f"_load_kernel: after a load that failed at the second column, loading the same path again gives "
+                           f"{oc.value[2] if oc.kind == 'ok' else oc!r} pore sizes, a clean load gives {oc.value[1] if oc.kind == 'ok' else '?'}: "
+                           "the outcome of a query must not depend on an earlier failed one"),
+               nontrivial_key=("failed-load",))
 
 
 def r_limits(ctx: Ctx, model):
